@@ -136,7 +136,20 @@ SQUASH_HAND = [
 ]
 
 
+# molecules with more than a few dozen atoms (small ones cannot show an order that depends on hashing of the node keys)
+LARGE_HAND = [
+    ('large/peo10', '{[#PEO]|10}.{#PEO=[$]COC[$]}', True),
+    ('large/ps6', '{[#PS]|6}.{#PS=[$]CC[$]c1ccccc1}', True),
+    ('large/peo-pe', '{[#PEO]|6[#PE]|6}.{#PEO=[$]COC[$],#PE=[$]CC[$]}', True),
+    ('large/cg24', '{[#A]|12}.{#A=[$][#a][#b][#c][$]}', False),
+]
+
+
 def squash_cases(tier):
+    for cid, s, aa in LARGE_HAND:
+        i = s.index('}.{')
+        yield {'id': 'hand/' + cid, 'base': None, 'base_str': s[:i + 1], 'blocks': gr._split_blocks(s[i + 2:]), 'all_atom': aa,
+               'legacy': True, 'valid': True, 'design': 'hand', 'bonds': None, 'tags': ['hand', 'large']}
     for cid, s, aa in SQUASH_HAND:
         i = s.index('}.{')
         yield {'id': 'hand/' + cid, 'base': None, 'base_str': s[:i + 1], 'blocks': gr._split_blocks(s[i + 2:]), 'all_atom': aa,
